@@ -10,7 +10,7 @@ ID = "C06"
 LEVEL = "exploration"
 RULE = (
     "Stage 'all-rpc': for 6 fixed products (levels 1.1/1.5/3.1, N<=12 lines) every "
-    "records_per_chunk in 1..N+2 plus {2N, 10^6, 2^31} against the baseline rpc=1 (enumerated). "
+    "records_per_chunk in 1..N+2 plus {2N, 10^6, 2^31} against the baseline rpc=1 (enumerated), and three products whose lines run over midnight UTC with every rpc in 1..N+1. "
     "Stage 'pairs': Hypothesis draws a whole product (1-3 images, all leader/line fields from a "
     "value seed) and a pair (rpc1, rpc2) from {1, divisors, non-divisors, N-1, N, N+1, 2N, 10^6, "
     "2^31}. Oracle (metamorphic): the two flattened trees (child order, attrs, dims, dtypes, "
@@ -50,6 +50,19 @@ def all_rpc_cases():
                 "level": level,
                 "images": [{"lines": lines, "pixels": pixels}, {"lines": max(1, lines - 1), "pixels": pixels}],
                 "vseed": lines * 100 + pixels,
+                "rpc1": 1,
+                "rpc2": rpc,
+                "fs": "memory",
+                "leader": {"map_projection": level != "1.1"},
+            }
+    # acquisitions that run over midnight UTC (on 31 December: into the next year)
+    for level, lines, doy in (("1.1", 8, 365), ("1.5", 6, 59), ("1.1", 6, 366)):
+        for rpc in range(1, lines + 2):
+            yield {
+                "level": level,
+                "images": [{"lines": lines, "pixels": 2, "cross_midnight": True}],
+                "instant": {"year": 2020 if doy == 366 else 2019, "doy": doy, "ms": 86_398_600, "us": 7},
+                "vseed": lines,
                 "rpc1": 1,
                 "rpc2": rpc,
                 "fs": "memory",
